@@ -285,6 +285,10 @@ func genC18(seed uint64, run int, tier string) *Plan {
 				}
 			}
 		}
+		if !tracked && !big && r.IntN(6) == 0 {
+			// a second upload under the id of the stored file: refused, and the stored file stays as it is
+			add(Op{K: "gfs.reupload", N: pick(r, 1, cs, 2*cs+1)})
+		}
 		for _, op := range downloads(cs, length) {
 			add(op)
 		}
@@ -867,6 +871,25 @@ func (g *gfsRun) step1(f *gfsFile, op *Op, shared bool) {
 		if g.checkNothing(f, "after Delete") {
 			e.probe("deleted-clean")
 		}
+	case "gfs.reupload":
+		if f.state != "complete" || f.tracked || f.off < 1 {
+			skip()
+			return
+		}
+		other := &gfsReader{id: f.id + 5000, total: op.N, end: "eof", parts: []int{op.N}}
+		err := b.UploadFromStreamWithID(ctx, int32(f.id), fmt.Sprintf("f%d", f.id), other, uploadOpts(f.cs))
+		e.logf("[file %d] upload of %d other bytes under the same id -> %v", f.id, op.N, err)
+		if isInjected(err) {
+			f.state = "unknown"
+			return
+		}
+		if err == nil {
+			e.violate(violation("C18", "reupload-accepted", "", fmt.Sprintf("a second upload under the id of stored file %d was accepted", f.id)))
+			return
+		}
+		if g.checkStored(f, "after a refused second upload under the same id") {
+			e.probe("reupload-refused-clean")
+		}
 	case "gfs.cleanup":
 		age := 24 * time.Hour
 		if op.Ms > 0 {
@@ -1059,8 +1082,11 @@ func sortedKeys(ms ...map[string]string) []string {
 }
 
 func execC18(t *testing.T, plan *Plan) *Outcome {
-	if plan.Cfg.Variant == "sharedstream" {
+	switch plan.Cfg.Variant {
+	case "sharedstream":
 		return execC18Shared(t, plan)
+	case "byname", "droprace":
+		return execC18Named(t, plan)
 	}
 	return runPlan(t, plan, func(e *Env) {
 		sim := e.sim
